@@ -18,13 +18,14 @@
 (*   ctail, gtail   the last, partial block of each as letters             *)
 (*   breaks  indices at which a line starts, boms: zero-width characters   *)
 (*   obs     << <<index, line, column>> >> after forward() calls           *)
-(*   want    [kind, pos] of the first offending unit ("-" if none),        *)
+(*   want    [kind, pos, span] of the first offending unit ("-" if none),  *)
 (*   offs    all offending units, err: [kind, pos] of the ReaderError      *)
 (*                                                                         *)
 (* kind = "pipe": one document pushed through scan / parse / compose_all / *)
 (* load_all of one back-end in several deliveries; ref is the in-memory    *)
 (* delivery, dels the others (identical observations merged).              *)
-(*   outcome = [form, api, be, st ("ok" | "err" | "exc"), items, err]      *)
+(*   outcome = [form, api, be, st ("ok" | "err" | "exc"), items, err,      *)
+(*              n, last, cum: running digests of the items before an error] *)
 (*   err = [cls, problem, context, pl, pc, cl, cc, pi, rd, rkind, rpos]    *)
 (*   defects = << [kind, cidx, pos (form -> offset in units of the form,   *)
 (*                 per back-end)] >> offending units found by abstraction  *)
@@ -65,15 +66,15 @@ PosOk(t, i, l, c) ==
 (***************************************************************************)
 JudgeReader(t) ==
   LET nb == Len(t.got) IN
-  IF ~IsPrefix(t.got, t.cls) THEN Bad("characters delivered differ from the document", 0)
-  ELSE IF ~IsPrefix(t.gtail, t.ctail) THEN Bad("characters delivered differ from the document", nb)
+  IF ~IsPrefix(t.got, t.cls) THEN Bad("chars differ from the document", 0)
+  ELSE IF ~IsPrefix(t.gtail, t.ctail) THEN Bad("chars differ from the document", nb)
   ELSE IF \E j \in DOMAIN t.obs : ~PosOk(t, t.obs[j][1], t.obs[j][2], t.obs[j][3])
-       THEN Bad("index/line/column differ from Pos(Doc, i)", CHOOSE j \in DOMAIN t.obs : ~PosOk(t, t.obs[j][1], t.obs[j][2], t.obs[j][3]))
-  ELSE IF t.want.kind = "-" /\ t.err.kind # "-" THEN Bad("reader error on a document without offending unit", 0)
+       THEN Bad("position differs from Pos(Doc,i)", CHOOSE j \in DOMAIN t.obs : ~PosOk(t, t.obs[j][1], t.obs[j][2], t.obs[j][3]))
+  ELSE IF t.want.kind = "-" /\ t.err.kind # "-" THEN Bad("reader error without offending unit", 0)
   ELSE IF t.want.kind # "-" /\ t.err.kind = "-" THEN Bad("offending unit not reported", 0)
   ELSE IF t.want.kind = "-" /\ ~(t.got = t.cls /\ t.gtail = t.ctail) THEN Bad("document not delivered completely", 0)
-  ELSE IF t.err # t.want
-       THEN (IF \E j \in DOMAIN t.offs : t.offs[j] = t.err THEN Bad("reader error is not the first offending unit", 0)
+  ELSE IF t.want.kind # "-" /\ ~H!Names(t.err, t.want)
+       THEN (IF \E j \in DOMAIN t.offs : H!Names(t.err, t.offs[j]) THEN Bad("reader error is not the first offence", 0)
              ELSE Bad("reader error class or offset", 0))
   ELSE Ok
 
@@ -82,12 +83,17 @@ JudgeReader(t) ==
 (***************************************************************************)
 PosOf(d, o) == IF o.be = "py" THEN d.ppos[o.form] ELSE d.cpos[o.form]
 \* the offending unit a reader error names, if it names one at its right offset
-Named(t, o) == {j \in DOMAIN t.defects : t.defects[j].kind = o.err.rkind /\ PosOf(t.defects[j], o) = o.err.rpos}
+Named(t, o) == {j \in DOMAIN t.defects : H!Names([kind |-> o.err.rkind, pos |-> o.err.rpos],
+                                                   [kind |-> t.defects[j].kind, pos |-> PosOf(t.defects[j], o), span |-> t.defects[j].span])}
+\* where inside the offending sequence the error points (must not depend on the delivery)
+Delta(t, o) == {o.err.rpos - PosOf(t.defects[j], o) : j \in Named(t, o)}
 FirstDefect(t) == CHOOSE j \in DOMAIN t.defects : \A k \in DOMAIN t.defects : t.defects[j].cidx <= t.defects[k].cidx
 ErrSame(a, b) ==
   /\ a.cls = b.cls /\ a.problem = b.problem /\ a.context = b.context
   /\ a.pl = b.pl /\ a.pc = b.pc /\ a.cl = b.cl /\ a.cc = b.cc /\ a.rkind = b.rkind
-Compat(o, r) == IsPrefix(o.items, r.items) \/ IsPrefix(r.items, o.items)
+\* what one delivery yielded before its error is a prefix of what the other yielded (running digests of the items)
+InSeq(x, s) == \E j \in DOMAIN s : s[j] = x
+Compat(o, r) == o.n = 0 \/ r.n = 0 \/ InSeq(o.last, r.cum) \/ InSeq(r.last, o.cum)
 \* a reader error against another error found earlier in the text (several defects, see above)
 Preempts(t, x, y) ==
   /\ x.st = "err" /\ y.st = "err" /\ x.err.rd /\ ~y.err.rd /\ Named(t, x) # {}
@@ -96,19 +102,20 @@ Preempts(t, x, y) ==
 
 JudgeOne(t, o, r) ==
   IF o.st = "exc" THEN "non-YAML exception"
-  ELSE IF o.st = "err" /\ o.err.rd /\ t.defects = <<>> THEN "reader error on a document without offending unit"
+  ELSE IF o.st = "err" /\ o.err.rd /\ t.defects = <<>> THEN "reader error without offending unit"
   ELSE IF o.st = "err" /\ o.err.rd /\ Named(t, o) = {} THEN "reader error class or offset"
-  ELSE IF o.st = "err" /\ o.err.rd /\ FirstDefect(t) \notin Named(t, o) THEN "reader error is not the first offending unit"
+  ELSE IF o.st = "err" /\ o.err.rd /\ FirstDefect(t) \notin Named(t, o) THEN "reader error is not the first offence"
   ELSE IF o.st = "err" /\ ~o.err.rd /\ o.be = "py" /\ o.err.pi >= 0 /\ t.exact
-          /\ ~PosOk(t, o.err.pi, o.err.pl, o.err.pc) THEN "error mark differs from Pos(Doc, i)"
+          /\ ~PosOk(t, o.err.pi, o.err.pl, o.err.pc) THEN "error mark differs from Pos(Doc,i)"
   ELSE IF o.st = "ok" /\ r.st = "ok" THEN (IF o.items = r.items THEN "-" ELSE "result differs between deliveries")
   ELSE IF o.st = "err" /\ r.st = "err" THEN
        (IF o.err.rd = r.err.rd
         THEN (IF ~ErrSame(o.err, r.err) THEN "error differs between deliveries"
-              ELSE IF o.err.rd THEN (IF Compat(o, r) THEN "-" ELSE "result differs between deliveries")
+              ELSE IF o.err.rd THEN (IF Delta(t, o) # Delta(t, r) THEN "reader error offset varies"
+                                     ELSE IF Compat(o, r) THEN "-" ELSE "result differs between deliveries")
               ELSE IF o.items = r.items THEN "-" ELSE "result differs between deliveries")
         ELSE IF Preempts(t, o, r) \/ Preempts(t, r, o) THEN "-" ELSE "error differs between deliveries")
-  ELSE "one delivery fails, the other does not"
+  ELSE "only some deliveries fail"
 
 JudgePipe(t) ==
   LET bad == {j \in DOMAIN t.dels : JudgeOne(t, t.dels[j], t.ref) # "-"} IN
